@@ -1,3 +1,4 @@
+from copy import deepcopy
 from abc import ABC, abstractmethod
 from datetime import datetime
 from typing import Any
@@ -55,7 +56,7 @@ class EOFBootstrapper(_BaseBootstrapper, EOF):
         """Bootstrap a given model."""
 
         self.model = model
-        self.preprocessor = model.preprocessor
+        self.preprocessor = deepcopy(model.preprocessor)
         sample_name = model.sample_name
         feature_name = model.feature_name
 
